@@ -49,32 +49,9 @@ Qed.
 (* ------------------------------------------------------------------ *)
 (* textual mapping sets: names a .tinydiff line can carry *)
 
-Definition doc_ne (o : option str) : bool := match o with Some [] => false | _ => true end.
-Definition name1_ok (valid : str -> bool) (l : names) : bool :=
-  match tname l with Some s => okname valid s | None => true end.
 
-Definition tx_param (p : param) : bool :=
-  N.leb (p_index p) usize_max && name1_ok is_valid_unqualified_name (p_names p).
-Definition tx_field (f : field) : bool :=
-  clean (f_desc f) && okname is_valid_unqualified_name (fname (f_names f))
-  && name1_ok is_valid_unqualified_name (f_names f).
-Definition tx_meth (m : meth) : bool :=
-  clean (m_desc m) && okname is_valid_method_name (fname (m_names m))
-  && name1_ok is_valid_method_name (m_names m) && forallb tx_param (m_params m).
-Definition tx_class (c : class) : bool :=
-  okname is_valid_obj_class_name (fname (c_names c)) && name1_ok is_valid_obj_class_name (c_names c)
-  && forallb tx_field (c_fields c) && forallb tx_meth (c_methods c).
-Definition textual_mappings (M : mappings) : bool := forallb tx_class (ms_classes M).
 
 (* known finding F4: an empty comment anywhere *)
-Definition ne_param (p : param) : bool := doc_ne (p_doc p).
-Definition ne_field (f : field) : bool := doc_ne (f_doc f).
-Definition ne_meth (m : meth) : bool := doc_ne (m_doc m) && forallb ne_param (m_params m).
-Definition ne_class (c : class) : bool :=
-  doc_ne (c_doc c) && forallb ne_field (c_fields c) && forallb ne_meth (c_methods c).
-Definition has_empty_comment (M : mappings) : bool :=
-  negb (doc_ne (ms_doc M) && forallb ne_class (ms_classes M)).
-Definition f4_class (A B : mappings) : bool := has_empty_comment A || has_empty_comment B.
 
 Lemma act_all_impl (p q : str -> bool) a :
   (forall s, p s = true -> q s = true) -> act_all p a = true -> act_all q a = true.
@@ -363,4 +340,36 @@ Theorem text_nonvacuous :
 Proof.
   split; [repeat split; vm_compute; reflexivity|]. split; [vm_compute; reflexivity|]. split; [vm_compute; reflexivity|].
   eexists. split; [vm_compute; reflexivity|]. split; [vm_compute; reflexivity|]. vm_compute. discriminate.
+Qed.
+
+(* the hypotheses as single booleans (evaluated on every generated pair by the correspondence run) *)
+Lemma inverse_hyps_b_iff A B : inverse_hyps_b A B = true <-> inverse_hyps A B.
+Proof.
+  unfold inverse_hyps_b, inverse_hyps. rewrite !andb_true_iff, list_str_eqb_eq. tauto.
+Qed.
+
+Lemma text_hyps_b_iff A B : text_hyps_b A B = true <-> text_hyps A B.
+Proof.
+  unfold text_hyps_b, text_hyps. rewrite !andb_true_iff, inverse_hyps_b_iff, opt_str_eqb_eq. tauto.
+Qed.
+
+(* the namespace lookup of apply_to: the first namespace with that name *)
+Lemma index_of_spec s l i : index_of s l = Some i ->
+  nth i l [] = s /\ (i < length l)%nat /\ forall j, (j < i)%nat -> nth j l [] <> s.
+Proof.
+  revert i. induction l as [|x l IH]; intros i; cbn [index_of]; [discriminate|].
+  destruct (str_eqb_spec x s) as [->|Hne].
+  - intros [= <-]. cbn. repeat split; [lia|]. intros j Hj. lia.
+  - destruct (index_of s l) as [i'|]; [|discriminate]. intros [= <-].
+    destruct (IH i' eq_refl) as (H1 & H2 & H3). cbn [nth length]. repeat split; [exact H1|lia|].
+    intros [|j] Hj; cbn [nth]; [exact Hne|apply H3; lia].
+Qed.
+
+Lemma apply_to_lookup d t nsname r :
+  apply_to d t nsname = Ok r <->
+  exists tns, index_of nsname (ms_ns t) = Some tns /\ apply_at tns d t = Ok r.
+Proof.
+  unfold apply_to. destruct (index_of nsname (ms_ns t)) as [tns|].
+  - split; [intros H; exists tns; auto|intros (tns' & [= <-] & H); exact H].
+  - split; [discriminate|intros (tns' & H & _); discriminate].
 Qed.
